@@ -403,6 +403,8 @@ class Evaluator:
             if c is None:
                 return None
             return self.ev(n['lhs'] if c else n['rhs'])
+        if k in ('CallExpr', 'CXXMemberCallExpr') and ('#ret:%d' % i) in self.model:
+            return self.model['#ret:%d' % i]     # the value a member walked before (with its effects recorded) handed back
         if k in ('CallExpr', 'CXXMemberCallExpr') and n.get('callee', {}).get('inrepo') and self.depth < 3:
             # a file-local helper without effects that computes a value: evaluate it on the translated model
             cf = fn.prog.funcs.get(n['callee']['usr'])
@@ -593,9 +595,13 @@ def translate_model(fn, ev, n, cf, model):
         for p_ in ('strempty:',):
             if kk.startswith(p_):
                 pre, kk = p_, kk[len(p_):]
+        hit = False
         for r, t in roots:
             if kk == r or kk.startswith(r + '.') or kk.startswith(r + '['):
                 m2[pre + t + kk[len(r):]] = v
+                hit = True
+        if not hit and ('this', 'this') in roots and re.search(r'\bthis\b', kk):
+            m2[pre + kk] = v      # the same object: an atom that mentions it inside a larger expression keeps its spelling
     return m2
 
 
@@ -769,6 +775,35 @@ def walk(fn, model, start=None, stop=None, follow_loops=False, max_steps=5000, s
                     if end2.startswith('undecided') or end2 == 'loop':
                         undec.append((nid, {'helper %s' % cf.name: 'o'}))
                         return out, 'undecided@%d' % nid, undec
+            if state is not None and state.get('record_calls') and n['k'] == 'CXXMemberCallExpr' and n.get('callee', {}).get('inrepo') and _depth < 2:
+                # a member of the same class called on this object (the function was split into members): its calls are ours
+                cf = fn.prog.funcs.get(n['callee']['usr'])
+                o_ = fn.nodes[fn.strip(n['obj'], 'all')] if n.get('obj') is not None else None
+                if cf is not None and cf.body is not None and cf.cls == fn.cls and cf.usr != fn.usr and (o_ is None or o_['k'] == 'CXXThisExpr') and \
+                        not is_throwing_helper(cf) and not is_own_lookup(fn, n, cf) and cf.qname not in state.get('no_dive', ()):
+                    st2 = {'record_calls': True, 'no_dive': state.get('no_dive', ())}
+                    try:
+                        m2 = translate_model(fn, ev, n, cf, model)
+                        _, end2, und2 = walk(cf, m2, follow_loops=follow_loops, max_steps=max_steps, state=st2, _depth=_depth + 1)
+                    except OutOfRange:
+                        end2, und2 = 'undecided', []
+                    if end2 != 'NEXIT':
+                        if end2.startswith('throw:'):
+                            thrown = end2[6:].split('@')[0]
+                            hv = find_handler(fn, g, v, thrown)
+                            if hv is None:
+                                return out, 'throw:%s@%d' % (thrown, nid), undec
+                            model['#exception'] = thrown
+                            seen.discard(hv)
+                            v = hv
+                            continue
+                        undec.append((nid, {'member %s' % cf.name: 'o'}))
+                        return out, 'undecided@%d' % nid, undec
+                    for nid2, vals2 in st2.get('calls', []):
+                        state.setdefault('deep_calls', []).append((cf, nid2, vals2))
+                    state.setdefault('deep_calls', []).extend(st2.get('deep_calls', []))
+                    if st2.get('ret') is not None:
+                        model['#ret:%d' % nid] = st2['ret']
             if state is not None and state.get('record_calls') and n['k'] == 'CXXMemberCallExpr':
                 try:
                     state.setdefault('calls', []).append((nid, [ev.ev(a) for a in n.get('args', [])]))
